@@ -188,7 +188,8 @@ def build_continuum(ns, ctx, sizes, coords="fixed", labels="unique", min_dur=Non
                 en = ctx.fresh(f"e{uid}_")
                 ctx.solver.add(en.e - st.e > lift(min_dur))
                 if ordered and prev is not None:
-                    ctx.solver.add(st.e > prev.e)
+                    # "weak": ties on the start allowed (the container then orders by end, then label: distinct units may tie on position)
+                    ctx.solver.add(st.e >= prev.e if ordered == "weak" else st.e > prev.e)
                 prev = st
             else:
                 st, en = core.const(10 * j + a), core.const(10 * j + a + 5)
@@ -203,7 +204,24 @@ def build_continuum(ns, ctx, sizes, coords="fixed", labels="unique", min_dur=Non
             c.add(ANN[a], Segment(st, en), lab)
             info[(a, j)] = dict(start=st, end=en, label=lab, uid=uid)
             uid += 1
+    if ordered == "weak" and coords == "sym":
+        # distinct units: two units of one annotator with the same label differ in a bound
+        for a, sz in enumerate(sizes):
+            for j1 in range(sz):
+                for j2 in range(j1):
+                    r1, r2 = info[(a, j1)], info[(a, j2)]
+                    if r1["label"] == r2["label"]:
+                        ctx.solver.add(z3.Or(r1["start"].e != r2["start"].e, r1["end"].e != r2["end"].e))
     ctx.model = None
+    if ordered == "weak":
+        # with ties the container's order need not be the construction order: key the records by the container's positions
+        rekeyed = {}
+        for a, s in enumerate(sizes):
+            recs = [info[(a, j)] for j in range(s)]
+            for k, u in enumerate(c._annotations[ANN[a]]):
+                rec = next(r for r in recs if r["start"] is u.segment.start and r["end"] is u.segment.end and r["label"] == u.annotation)
+                rekeyed[(a, k)] = rec
+        info = rekeyed
     return c, info
 
 
